@@ -35,8 +35,8 @@ CHECKS = {
     "C19": ("exploration",
             "With 1..16 callers running gets, puts, batches, scans and CacheRegions, Close is issued at points chosen through real "
             "preemption points of the client (its log statements, the dialer, held server replies): right before a dial, during "
-            "a dial, during the region probe, during a meta lookup, during retry back-off, with ZooKeeper failing, with a "
-            "scanner open, during batches, and at seeded instants. Afterwards: Close returned, calls in flight and later calls "
+            "a dial (150 ms or 1.5 s long), during the region probe, during a meta lookup, during a short and during a 4 s retry back-off, while an establisher backs off, with ZooKeeper failing or blocked, with a "
+            "scanner open or abandoned, after a connection lost all its regions, during batches, and at seeded instants. Afterwards: Close returned, calls in flight and later calls "
             "end with the client-closed error, every connection the client dialled has been closed by it, no dial, no ZooKeeper "
             "lookup and no successful write on any connection (client-side observation) once all calls returned, no client goroutine in the process, second Close harmless.",
             "Quiescence = all calls returned + 60 ms; activity is observed for 150 ms after it. Interleavings are those the hook "
@@ -44,7 +44,8 @@ CHECKS = {
             "runtime quiescence monitor (connection census, wire log, goroutine census) with hook-forced schedules", "DESIGN.md §2 C19"),
     "C20": ("exploration",
             "Bursts of up to 128 concurrent first users over up to 32 regions on 1..3 servers, later discoveries, with and "
-            "without connection failures (reset, abort exception, refused first dial, read error). A client-side dial log on one "
+            "without connection failures (reset, abort exception, server-class exception on one action, refused first dial, read error), slow replies with call deadlines, merges found by a cache miss, a call answered not-serving five times in a row, "
+            "a dialer slower than the lookup timeout that ignores its context, CacheRegions before or during the burst, a server registered under a dotted name. A client-side dial log on one "
             "clock shows for every address: one dial in runs without connection failures (including an in-place split of a region "
             "that is alone on its server), at the moment of every dial no other region client for that address in the client's "
             "connection cache, and at most one open connection per address at quiescence.",
@@ -86,7 +87,7 @@ CHECKS = {
     "C18": ("exploration",
             "Request/response sequences on one connection (bare region client and full client) bring the outstanding count to "
             "zero and back through unbatched calls, batches, responses forced to be read before the sender returns from Write, "
-            "calls cancelled while unanswered, responses released together, and a request sent while the deadline-clearing call "
+            "calls cancelled while unanswered or inside the connection's Write, responses released together, one of n answered, and a request sent while the deadline-clearing call "
             "of the previous response is in progress. The connection wrapper records every Write and SetReadDeadline in order: "
             "at each quiescent point the deadline must get cleared and the connection must be open; while requests are held, "
             "the last request write must be followed by a deadline update covering write time + timeout (order-based, waited "
@@ -117,13 +118,14 @@ CHECKS = {
     "C07": ("fault_enumeration",
             "All single-fault placements for batches of 1..4 calls are enumerated (one call follows a script of one or two outcomes), "
             "then seeded batches whose calls follow per-call outcome scripts across retry rounds (success, fatal error, retry-later, "
-            "region not serving, connection dead before/after execution, per-action server-fatal exception), with the table dropped between rounds and cancellation at "
-            "three points; the result slice is judged slot by slot against the server-side log: own payload, own error, a "
-            "delivered success or fatal error never replaced, no executed call with the placeholder, flag consistency.",
+            "region not serving, connection dead before/after execution, per-action server-fatal exception, an action left out of the response), with the table dropped between rounds and cancellation "
+            "before sending, while waiting, during the back-off, as the reply is written and while the delivered results are being collected, and with a call's own context ending in four states; the result slice is judged slot by slot against the server-side log: own payload, own error, a "
+            "delivered success or fatal error never replaced, no executed call with the placeholder, flag consistency, and no batch that ends "
+            "only with its deadline although every request was answered.",
             "Outcome scripts and placements are drawn at random (dense for batches of <=12 calls), not exhaustively enumerated.",
             "runtime per-slot oracle joined with the server-side execution log under scripted faults", "DESIGN.md §2 C07"),
     "C12": ("fault_enumeration",
-            "The same enumerated single-fault placements and scripted-fault batches (up to 40 calls, invalid entries at every position) judged on the server-side log "
+            "The same enumerated single-fault placements and scripted-fault batches (up to 40 calls; invalid entries - another table, another namespace, a duplicate, a scan / SkipBatch call / check-and-put - at every position) judged on the server-side log "
             "only: nothing is sent for an invalid batch, actions execute only on the owning region, calls of a region are first "
             "presented in batch order and re-sent subsets keep batch order, and no call arrives again after its success or "
             "fatal error was delivered.",
@@ -157,7 +159,7 @@ CHECKS = {
             "A 4-row scan over 2 regions is ended in each of 7 ways at every point (j = 0..5 Next calls, r = 1..6 requests; enumerated), "
             "and the scans of C06 are ended at a drawn point in every way a scan can end (exhausted, Close after j calls, "
             "cancellation between fetches, cancellation with the r-th request unanswered, non-retryable and retryable RPC "
-            "error on the r-th request, server-declared end at the r-th response), with and without renewal. A trace "
+            "error on the r-th request, the response to the r-th request lost, server-declared end at the r-th response - after which no further request may be sent), with and without renewal, slow consumers and held close acknowledgements. A trace "
             "automaton judges the Next sequence, Close is timed and repeated, and the simulated servers' scanner table is "
             "checked for conservation (every opened region scanner exhausted or explicitly closed) and for renewals after the end.",
             "Ending points are sampled per scan (j, r drawn), not enumerated for every scan. One inherent protocol limit is "
